@@ -168,6 +168,11 @@ func (s *SampleBuilder) purgeBuffers(flush bool) {
 				continue
 			}
 
+			if !s.filled.hasData() {
+				// buildSample dropped everything that was still buffered
+				break
+			}
+
 			// could not build the sample so drop it
 			s.active.head++
 			s.droppedPackets++
